@@ -4,6 +4,7 @@
 # property's check. Exit 0 = held, 1 = VIOLATION, 2 = harness error (build failure, determinism, watchdog).
 cd "$(dirname "$0")/.." || exit 2
 export CARGO_NET_OFFLINE=true
+mkdir -p target
 python3 tools/gen_shadow.py || exit 2
 if ! cargo build --release --offline -p noirsim > target/build.log 2>&1; then
     mkdir -p target
